@@ -15,7 +15,10 @@ Space
       drive prefix "C:", every layout.
   The sandbox is a real directory tree <tmp>/work/file_sb (the process chdir()s to <tmp>/work, the base
   is the default relative "file_sb" exactly as LinuxEnvironment / BASE_SB_PATH use it).  It contains
-  a/, a/a/, .../ and the symbolic links of the layout at file_sb/lnk and file_sb/a/lnk.
+  a/, a/a/, .../ and the symbolic links of the layout at file_sb/lnk and file_sb/a/lnk.  Next to the base,
+  <tmp>/work/file_sb_backup/ and <tmp>/work/file_sb2/ really exist (names that have the base name as a string
+  prefix); the SIBLING_LAYOUTS link to them relatively, absolutely and through a chain.  The check's own
+  containment test is component-wise (os.path.commonpath).
 
 Oracle
   the returned host path, as the host OS would resolve it (realpath; for follow_link=False the final
@@ -66,8 +69,17 @@ LAYOUTS = [
     ("lnk->.", {"lnk": "."}),
     ("lnk->/../..", {"lnk": "/../.."}),
     ("lnk->/dev/null", {"lnk": "/dev/null"}),      # a link whose target is the passthrough entry
+    # both tiers (SIBLING_LAYOUTS): links to directories that really exist NEXT TO the base and whose names have the
+    # base name as a string prefix (work/file_sb_backup, work/file_sb2) - a character-wise prefix test accepts them.
+    # @WORK@ is replaced by the absolute path of the directory holding the base.
+    ("lnk->../file_sb_backup", {"lnk": "../file_sb_backup"}),
+    ("lnk->@WORK@/file_sb2", {"lnk": "@WORK@/file_sb2"}),
+    ("lnk->lnk2->../file_sb_backup", {"lnk": "lnk2", "lnk2": "../file_sb_backup"}),
+    ("lnk->../../file_sb_backup", {"lnk": "../../file_sb_backup"}),     # reaches the sibling from file_sb/a/lnk
 ]
 N_LAYOUTS_QUICK = 6
+SIBLING_LAYOUTS = [10, 11, 12, 13]
+SIBLINGS = ("file_sb_backup", "file_sb2")
 PASSTHROUGH = [[], ["/dev/null"]]
 BASE = "file_sb"
 KEEP_PER_SIG = 2          # violation records kept per signature and shard (totals are counted)
@@ -185,11 +197,15 @@ class Sandbox(object):
         self.base = os.path.join(self.work, BASE)
         os.makedirs(os.path.join(self.base, "a", "a"))
         os.makedirs(os.path.join(self.base, "..."))
+        for sibling in SIBLINGS:
+            os.makedirs(os.path.join(self.work, sibling, "a"))
+        self.layout = dict((name, target.replace("@WORK@", self.work)) for name, target in self.layout.items())
         for where in (self.base, os.path.join(self.base, "a")):
             for name, target in self.layout.items():
                 os.symlink(target, os.path.join(where, name))
         os.chdir(self.work)
         self.base_real = os.path.realpath(self.base)
+        self.base_parts = self.base.split(os.sep)
         self.links = guest_links(self.layout)
         return self
 
@@ -202,7 +218,8 @@ class Sandbox(object):
 
     # -- oracle ------------------------------------------------------------------------------
     def _inside(self, p):
-        return p == self.base_real or p.startswith(self.base_real + os.sep)
+        """Component-wise containment (never a string prefix: work/file_sb2 is not inside work/file_sb)."""
+        return os.path.isabs(p) and os.path.commonpath([p, self.base_real]) == self.base_real
 
     def verdict(self, result, nofollow, relative_api):
         """-> None (inside) or an escape kind."""
@@ -222,7 +239,7 @@ class Sandbox(object):
             if not self._inside(lex):
                 if not os.path.isabs(r) and not relative_api:
                     kind = "relative-result"          # a guest path handed back as if it were a host path
-                elif os.path.join(self.work, r).startswith(self.base + os.sep) or r == BASE or r.startswith(BASE + os.sep):
+                elif os.path.join(self.work, r).split(os.sep)[:len(self.base_parts)] == self.base_parts:
                     kind = "dotdot-above-base"        # base/../..: '..' components survive the mapping
                 else:
                     kind = "absolute-outside"
@@ -429,10 +446,12 @@ def _shard(args):
 def run(ctx):
     # maxc: main lattice; maxc_main_pt: main lattice again with the passthrough set configured (it has no component
     # that can match the entry, so this only shows that configuring a passthrough loosens nothing); maxc_pt: second lattice
+    # maxc_sib: main lattice under the SIBLING_LAYOUTS (both tiers; passthrough [] only, no passthrough lattice)
     if ctx.quick:
-        maxc, maxc_main_pt, maxc_pt, nsh, nlay = 5, 4, 4, 8, N_LAYOUTS_QUICK
+        maxc, maxc_main_pt, maxc_pt, nsh, nlay, maxc_sib, maxc_slash = 5, 4, 4, 8, N_LAYOUTS_QUICK, 3, 3
     else:
-        maxc, maxc_main_pt, maxc_pt, nsh, nlay = 6, 6, 5, 16, len(LAYOUTS)
+        maxc, maxc_main_pt, maxc_pt, nsh, nlay, maxc_sib, maxc_slash = 6, 6, 5, 16, SIBLING_LAYOUTS[0], 5, 5
+    # maxc_slash: windows_to_sbpath turns '/' into '_', a slash-joined string is ONE component whatever its length
     nsh_small = max(1, nsh // 4)        # the pure string mappings are much cheaper per case
     shards = []
     for li in range(nlay):
@@ -442,7 +461,14 @@ def run(ctx):
         shards += [(("unix",), li, [], maxc, maxc_pt, i, nsh_small) for i in range(nsh_small)]
         for sep in ("\\", "/"):
             for drive in ("", "C:"):
-                shards += [(("windows", sep, drive), li, [], maxc, maxc_pt, i, nsh_small) for i in range(nsh_small)]
+                shards += [(("windows", sep, drive), li, [], maxc if sep == "\\" else maxc_slash, maxc_pt, i, nsh_small)
+                           for i in range(nsh_small)]
+    for li in SIBLING_LAYOUTS:
+        shards += [(("resolve",), li, [], maxc_sib, maxc_pt, i, nsh_small) for i in range(nsh_small)]
+        shards += [(("unix",), li, [], maxc_sib, maxc_pt, 0, 1)]
+        for sep in ("\\", "/"):
+            for drive in ("", "C:"):
+                shards += [(("windows", sep, drive), li, [], min(maxc_sib, maxc if sep == "\\" else maxc_slash), maxc_pt, 0, 1)]
     res = ctx.pmap(_shard, shards)
 
     outcomes = {}
@@ -475,6 +501,8 @@ def run(ctx):
         "exhaustive": True,
         "bounds": {"max_components": maxc, "max_components_main_lattice_with_passthrough_configured": maxc_main_pt, "components": list(COMPONENTS), "max_components_passthrough_lattice": maxc_pt,
                    "passthrough_components": list(PT_COMPONENTS), "layouts": [l[0] for l in LAYOUTS[:nlay]],
+                   "sibling_layouts": [LAYOUTS[i][0] for i in SIBLING_LAYOUTS], "max_components_sibling_layouts": maxc_sib,
+                   "max_components_windows_slash_joined": maxc_slash,
                    "passthrough_sets": PASSTHROUGH, "string_types": ["str", "bytes (resolve_path only)"],
                    "windows_separators": ["\\", "/"], "windows_drive_prefix": ["", "C:"]},
         "distinct_strings_unix": len(unix_strings(COMPONENTS, maxc)),
